@@ -22,6 +22,7 @@ func init() {
 			{ID: "C07-R6", Doc: "every batch is decoded into a frame of exactly the decoded length, which is validated", Run: c07r6},
 			{ID: "C11-R1", Doc: "the frame hands codecs and gob exactly the view's rows (offset-translated bounds) (shared)", Run: c11r1},
 			{ID: "C11-R6", Doc: "the scratch frame sized with Ensure(n) has exactly n rows (shared)", Run: c11r6},
+			{ID: "C11-R9", Doc: "a column is bound over the whole capacity the frame records, so the column value the encoder writes has the frame's length (shared)", Run: c11r9},
 		},
 	})
 }
